@@ -27,16 +27,22 @@ pub fn set(input: Input<'_>) -> ParserResult<'_, ASN1Type> {
                         skip_ws_and_comments(sequence_component),
                         optional_comma,
                     )),
-                    opt(terminated(extension_marker, opt(skip_ws_and_comments(char(COMMA))))),
-                    opt(many0(terminated(
-                        skip_ws_and_comments(sequence_component),
-                        optional_comma,
-                    ))),
+                    // extension additions are looked for behind an extension marker only
+                    opt(pair(
+                        terminated(extension_marker, opt(skip_ws_and_comments(char(COMMA)))),
+                        many0(terminated(
+                            skip_ws_and_comments(sequence_component),
+                            optional_comma,
+                        )),
+                    )),
                 )),
                 opt(constraints),
             ),
         ),
-        |m| ASN1Type::Set(m.into()),
+        |((root, extension), constraints)| {
+            let (marker, additions) = extension.unzip();
+            ASN1Type::Set(((root, marker, additions), constraints).into())
+        },
     )
     .parse(input)
 }
